@@ -213,7 +213,9 @@ class ConsumerUnit(Unit):
         fn, _, _ = self.load()
         gets = sorted(n.lineno for n in ast.walk(fn) if isinstance(n, ast.Call) and ast.unparse(n.func) == 'tasks.get'
                       and not any(isinstance(a, (ast.FunctionDef, ast.AsyncFunctionDef)) and a is not fn and a.lineno <= n.lineno <= a.end_lineno for a in ast.walk(fn)))
-        self.main_get_line = gets[0] if gets else -1
+        if not gets:
+            raise KeyError('no `tasks.get(...)` call in the consumer: the contract is bound to the local name `tasks` of the hand-off queue')
+        self.main_get_line = gets[0]
         st.ghost['src_exhausted'] = z3.Bool('src_exhausted')
         st.ghost['n_pulled'] = z3.Int('n_pulled')
         self.made = {}
@@ -287,7 +289,7 @@ class ConsumerUnit(Unit):
             conds += [box(ex, args.items[0]) == self.instream, z3.BoolVal(unbox_handle(ex, args.items[1]) is self.P.func),
                       z3.BoolVal(unbox_handle(ex, kw.items.get('to_stop')) is self.made.get('ev')),
                       z3.BoolVal(unbox_handle(ex, kw.items.get('q', kw.items.get('tasks'))) is self.made.get('q')
-                                 and unbox_handle(ex, st.env.get('tasks')) is self.made.get('q') and len(self.made.get('queues', [])) == 1),
+                                 and unbox_handle(ex, st.env['tasks']) is self.made.get('q') and len(self.made.get('queues', [])) == 1),
                       z3.BoolVal((unbox_handle(ex, kw.items.get('preprocessor')) is self.P.pre) if self.with_pre else
                                  z3.is_true(z3.simplify(box(ex, kw.items.get('preprocessor')) == NONE))),
                       z3.BoolVal(kw.pack is self.P.kw and set(kw.items) == {'to_stop', 'q' if 'q' in kw.items else 'tasks', 'preprocessor'})]
@@ -304,7 +306,7 @@ class ConsumerUnit(Unit):
         k = q.nget(st) - 1                  # index of the item being answered
         n = st.ghost['nyield']
         # the item at index k is (src_at(k), f) with f per the feeder guarantee; the output must be omap(x_k, outcome(f))
-        f = st.env.get('fut', st.env.get('t'))
+        f = st.env['fut'] if 'fut' in st.env else st.env['t']        # the local holding the future of the item being answered (sync: fut, async: t); KeyError = binding error
         y_ok = z3.And(fut_ok(f), val == self.omap(src_at(k), fut_val(f)))
         y_exc = z3.And(z3.Not(fut_ok(f)), self.return_exc, V.isinst(fut_exc(f), 'Exception'), val == self.omap(src_at(k), fut_exc(f)))
         ex.oblige(st, f'line {node.lineno}: output #k is produced exactly once, in input order (k == number of outputs so far)', n == k)
